@@ -6,7 +6,6 @@ package bucketteer
 // non-empty prefixes are listed in the header; maps keyed by the 2-byte prefix).
 
 import (
-	"encoding/binary"
 	"io"
 	"os"
 )
@@ -44,29 +43,20 @@ func VerifC05PrefixDep() {
 	verifReach("end")
 }
 
-// verifC05RA: array-backed io.ReaderAt (a second ReaderAt implementation besides *os.File)
-type verifC05RA struct{ data []byte }
-
-func (r *verifC05RA) ReadAt(p []byte, off int64) (int, error) {
-	if off < 0 || off >= int64(len(r.data)) {
-		return 0, io.EOF
-	}
-	n := copy(p, r.data[off:])
-	if n < len(p) {
-		return n, io.EOF
-	}
-	return n, nil
+// verifC05OneBucketReader: a legacy Reader whose content area is exactly one bucket, listed
+// under prefix p (used by the pipeline lemmas in c05_pipeline.go).
+func verifC05OneBucketReader(bucket []byte, p [2]byte) *Reader {
+	return &Reader{contentReader: &verifC05RA{data: bucket}, prefixToOffset: map[[2]byte]uint64{p: 0}}
 }
 
-func verifC05Bucket(hashes []uint64) []byte {
-	entries := getCleanSet(hashes)
-	sortWithCompare(entries, verifC05Cmp(entries))
-	out := make([]byte, 4+8*len(entries))
-	binary.LittleEndian.PutUint32(out, uint32(len(entries)))
-	for i, h := range entries {
-		binary.LittleEndian.PutUint64(out[4+8*i:], h)
+// verifC05ReaderOver: a legacy Reader over an arbitrary content ReaderAt with the given
+// prefix -> offset entries.
+func verifC05ReaderOver(ra io.ReaderAt, offs map[[2]byte]uint64) *Reader {
+	m := make(map[[2]byte]uint64, len(offs))
+	for p, o := range offs {
+		m[p] = o
 	}
-	return out
+	return &Reader{contentReader: ra, prefixToOffset: m}
 }
 
 // C05.has.dep — the legacy Reader.Has over an array-backed content area (junk, bucket A with n
@@ -87,15 +77,13 @@ func VerifC05HasDep() {
 	for i := range ha {
 		ha[i] = Hash(mk(pA, "a"))
 	}
-	if n > verifParam("perm", 2) {
-		for i := 1; i < n; i++ {
-			verifAssume(ha[i-1] < ha[i])
-		}
+	for i := 1; i < n; i++ {
+		verifAssume(ha[i-1] < ha[i]) // the bucket holds a clean set: strictly increasing
 	}
 	sb := mk(pB, "b")
 	content := verifBytes("junk.before", pad) // arbitrary bytes around the buckets: the answer must not depend on them
-	bucketA := verifC05Bucket(append([]uint64(nil), ha...))
-	bucketB := verifC05Bucket([]uint64{Hash(sb)})
+	bucketA := verifC05RefBucket(ha)
+	bucketB := verifC05RefBucket([]uint64{Hash(sb)})
 	offA := uint64(len(content))
 	content = append(content, bucketA...)
 	offB := uint64(len(content))
@@ -138,14 +126,14 @@ var verifC05DepMetas = []map[string]string{
 
 // shapes: prefix index (into verifC05Prefixes) of each put signature
 var verifC05Shapes = [][]int{
-	0: {0, 0, 3},             // two under 0x0000, one under 0xffff
-	1: {},                    // empty index
-	2: {1},                   // single signature
-	3: {1, 2, 1, 2, 1},       // 3 + 2 under the two byte orders of 1
-	4: {3, 3, 3, 3},          // four under 0xffff
-	5: {5, 4, 3, 2, 1, 0},    // one each under six prefixes, put in descending prefix order
+	0: {0, 0, 3},                // two under 0x0000, one under 0xffff
+	1: {},                       // empty index
+	2: {1},                      // single signature
+	3: {1, 2, 1, 2, 1},          // 3 + 2 under the two byte orders of 1
+	4: {3, 3, 3, 3},             // four under 0xffff
+	5: {5, 4, 3, 2, 1, 0},       // one each under six prefixes, put in descending prefix order
 	6: {4, 4, 4, 4, 4, 4, 4, 5}, // 7 + 1
-	7: {2, 1, 2},             // arbitrary order candidates
+	7: {2, 1, 2},                // arbitrary order candidates
 }
 
 // C05.file.dep — end to end, legacy format, on the in-memory file system: NewWriter, Put, Seal
@@ -161,7 +149,8 @@ func VerifC05FileDep() {
 			avail = append(avail, i)
 		}
 	}
-	shape := verifC05Shapes[avail[verifChoice("shape", len(avail))]]
+	shapeIdx := avail[verifChoice("shape", len(avail))]
+	shape := verifC05Shapes[shapeIdx]
 	sigs := make([][64]byte, len(shape))
 	for i, pi := range shape {
 		var s [64]byte
@@ -169,6 +158,23 @@ func VerifC05FileDep() {
 		s[0], s[1] = p[0], p[1]
 		copy(s[2:8], verifBytes("s", 6))
 		sigs[i] = s
+		w.Put(s)
+	}
+	// concrete-hash extras (no forks): "extra"=1: prefix 0x0000 additionally receives hashes in
+	// DESCENDING put order with one signature put TWICE, prefix 34 12 a pair in ascending order;
+	// "big"=n: prefix 00 ff receives n further signatures (count / size arithmetic at 255..257, 65535..65537)
+	var extra [][64]byte
+	if verifParam("extra", 0) == 1 {
+		for _, id := range []uint64{9, 4, 9, 2} {
+			extra = append(extra, verifC05ConcSig(verifC05Prefixes[0], id))
+		}
+		extra = append(extra, verifC05ConcSig(verifC05Prefixes[7], 1), verifC05ConcSig(verifC05Prefixes[7], 7))
+	}
+	big := verifParam("big", 0)
+	for i := 0; i < big; i++ {
+		extra = append(extra, verifC05ConcSig(verifC05Prefixes[5], uint64(i^1)))
+	}
+	for _, s := range extra {
 		w.Put(s)
 	}
 	if verifParam("ordered", 1) == 1 {
@@ -182,7 +188,10 @@ func VerifC05FileDep() {
 		}
 	}
 	meta := verifC05DepMetas[verifChoice("meta", verifParam("metas", 1))]
-	qset := []int{7}
+	qset := []int{6}
+	if big > 0 {
+		qset = []int{5}
+	}
 	for _, pi := range shape {
 		dup := false
 		for _, x := range qset {
@@ -207,17 +216,47 @@ func VerifC05FileDep() {
 	verifAssert(w.Close() == nil, "C05.file.dep: Close failed")
 	_ = size
 
-	f, err := os.Open(path)
-	verifAssert(err == nil, "C05.file.dep: open failed")
-	r, err := NewReader(f)
-	verifAssert(err == nil, "C05.file.dep: NewReader failed on a file the writer sealed")
+	var r *Reader
+	if m := verifParam("mmap", 0); m == 1 || (m == 2 && shapeIdx%2 == 1) {
+		r, err = Open(path) // the server's entry point: isEmptyFile + mmap.Open + NewReader
+		verifAssert(err == nil, "C05.file.dep: Open failed on a file the writer sealed")
+	} else {
+		f, err := os.Open(path)
+		verifAssert(err == nil, "C05.file.dep: open failed")
+		r, err = NewReader(f)
+		verifAssert(err == nil, "C05.file.dep: NewReader failed on a file the writer sealed")
+	}
 	for _, s := range sigs {
 		ok, err := r.Has(s)
 		verifAssert(err == nil, "C05.file.dep: Reader.Has failed")
 		verifAssert(ok, "C05.file.dep: signature put before sealing is reported absent (false negative)")
+		verifAssert(w.Has(s), "C05.file.dep: Writer.Has forgets a signature after Seal")
+	}
+	step := 1
+	if len(extra) > 600 {
+		step = 97 // sample a large bucket: every 97th signature, plus the last 3
+	}
+	for i, s := range extra {
+		if i%step != 0 && i < len(extra)-3 {
+			continue
+		}
+		ok, err := r.Has(s)
+		verifAssert(err == nil, "C05.file.dep: Reader.Has failed (concrete-hash signature)")
+		verifAssert(ok, "C05.file.dep: signature put before sealing is reported absent (false negative, concrete-hash signature)")
+	}
+	if len(extra) > 0 {
+		for _, pi := range []int{0, 5, 7} {
+			for _, id := range []uint64{1 << 40, 3, 1<<40 + 1} {
+				s := verifC05ConcSig(verifC05Prefixes[pi], id)
+				ok, err := r.Has(s)
+				verifAssert(err == nil, "C05.file.dep: Reader.Has failed (absent concrete-hash signature)")
+				verifAssert(ok == w.Has(s), "C05.file.dep: Writer.Has and the sealed file disagree (concrete-hash signature)")
+				verifAssert(!ok || (pi == 5 && id == 3 && big > 3), "C05.file.dep: a hash that was never put is reported present")
+			}
+		}
 	}
 	exp := false
-	for _, s := range sigs {
+	for _, s := range append(append([][64]byte(nil), sigs...), extra...) {
 		if s[0] == q[0] && s[1] == q[1] {
 			exp = verifC05Or(exp, Hash(s) == Hash(q))
 		}
